@@ -61,9 +61,9 @@ Err   == [ok |-> FALSE, v |-> <<>>]
 
 (* Values read from JSON carry the empty kids map as an empty record, which TLC refuses   *)
 (* to compare with the empty function; NormTree rebuilds every kids map as a function.    *)
-RECURSIVE NormKids(_)
-NormKids(kids) == [k \in DOMAIN kids |-> [kids[k] EXCEPT !.kids = NormKids(kids[k].kids)]]
-NormTree(M) == [M EXCEPT !.kids = NormKids(M.kids)]
+RECURSIVE NormTreeKids(_)
+NormTreeKids(kids) == [k \in DOMAIN kids |-> [kids[k] EXCEPT !.kids = NormTreeKids(kids[k].kids)]]
+NormTree(M) == [M EXCEPT !.kids = NormTreeKids(M.kids)]
 
 (* number of nodes, used by CONSTRAINTs and statistics *)
 RECURSIVE SizeKids(_)
